@@ -41,6 +41,7 @@ type WireMsg struct {
 	Raw      [][]byte
 	Abs      M
 	HashRaw  []byte
+	Keys     *ref.SessionKeys // data messages: the keys that authenticate and encrypt it (nil if none do)
 }
 
 // Party wraps one real conversation.
@@ -90,6 +91,8 @@ type World struct {
 	// Scan enables the object-graph scan for retained secrets and texts after every call
 	Scan        bool
 	lastInLen   int
+	expectUsage *usageRec
+	curKeys     *ref.SessionKeys
 	EvilCommits map[string]int
 	EvilRs      map[string]int
 	EvilValues  map[int]*big.Int
@@ -199,7 +202,16 @@ func (h smpH) HandleSMPEvent(e otr3.SMPEvent, pp int, q string) {
 type keyH struct{ p *Party }
 
 func (h keyH) ReceivedSymmetricKey(usage uint32, usageData []byte, symkey []byte) {
-	h.p.evs = append(h.p.evs, "key:extra")
+	// the key handed to the application must be the one the specification derives for the key pair
+	// that authenticated the message (h2(0xff, s)), usage and usage data as sent
+	ev := "key:extra"
+	if k := h.p.w.curKeys; k == nil || !bytes.Equal(k.Extra, symkey) {
+		ev = "key:extra-wrong-key"
+	}
+	if h.p.w.expectUsage != nil && (usage != h.p.w.expectUsage.usage || !bytes.Equal(usageData, h.p.w.expectUsage.data)) {
+		ev = "key:extra-wrong-usage"
+	}
+	h.p.evs = append(h.p.evs, ev)
 	h.p.w.lastExtra = append([]byte{}, symkey...)
 	h.p.w.lastUsage = usage
 	h.p.w.lastUsageData = append([]byte{}, usageData...)
@@ -358,6 +370,11 @@ func (w *World) resolveSSID(ssid [8]byte) []int {
 // ---------------------------------------------------------------------------
 // API calls
 
+type usageRec struct {
+	usage uint32
+	data  []byte
+}
+
 type callResult struct {
 	panicked string
 	ms       float64
@@ -427,7 +444,9 @@ func (w *World) emit(p *Party, out []otr3.ValidMessage) []M {
 	}
 	for _, g := range groupOutputs(out) {
 		wm := &WireMsg{ID: len(w.Wire) + 1, From: p.Name, To: p.Peer, Raw: g}
+		w.lastKeys = nil
 		wm.Abs = w.Abs(g, p.Name, p.Peer)
+		wm.Keys = w.lastKeys
 		if hr, ok := wm.Abs["hashraw"].([]byte); ok {
 			wm.HashRaw = hr
 			delete(wm.Abs, "hashraw")
@@ -455,7 +474,7 @@ func (w *World) record(ev M, p *Party, cr callResult, out []M, err error) M {
 	}
 	ev["p"] = p.Name
 	ev["i"] = w.N + 1
-	for k, v := range map[string]interface{}{"plain": 0, "hi": false, "np": 0, "text": 0, "prs": false, "atk": "", "raweq": false, "s": 0, "q": false, "run": 0} {
+	for k, v := range map[string]interface{}{"plain": 0, "hi": false, "np": 0, "text": 0, "prs": false, "atk": "", "raweq": false, "s": 0, "q": false, "run": 0, "xk": true} {
 		if _, ok := ev[k]; !ok {
 			ev[k] = v
 		}
@@ -569,7 +588,9 @@ func (w *World) Send(p *Party, text int) M {
 // ReceiveAttack delivers attacker-made bytes to p; what p answers goes nowhere.
 func (w *World) ReceiveAttack(p *Party, raw [][]byte, name string) M {
 	wm := &WireMsg{ID: len(w.Wire) + 1, From: p.Peer, To: p.Name, Raw: raw}
+	w.lastKeys = nil
 	wm.Abs = w.Abs(raw, p.Peer, p.Name)
+	wm.Keys = w.lastKeys
 	if hr, ok := wm.Abs["hashraw"].([]byte); ok {
 		wm.HashRaw = hr
 		delete(wm.Abs, "hashraw")
@@ -603,6 +624,7 @@ func (w *World) receive(p *Party, wm *WireMsg, sink bool, atk string) M {
 		}
 	}
 	plains := [][]byte{}
+	w.curKeys = wm.Keys
 	cr := w.call(p, func() {
 		for i, f := range wm.Raw {
 			var pl otr3.MessagePlaintext
@@ -655,7 +677,9 @@ func (w *World) receive(p *Party, wm *WireMsg, sink bool, atk string) M {
 // InjectRaw puts a raw message from p's peer (or an outsider) into p's queue.
 func (w *World) InjectRaw(p *Party, raw ...[]byte) *WireMsg {
 	wm := &WireMsg{ID: len(w.Wire) + 1, From: p.Peer, To: p.Name, Raw: raw}
+	w.lastKeys = nil
 	wm.Abs = w.Abs(raw, p.Peer, p.Name)
+	wm.Keys = w.lastKeys
 	if hr, ok := wm.Abs["hashraw"].([]byte); ok {
 		wm.HashRaw = hr
 		delete(wm.Abs, "hashraw")
@@ -752,7 +776,17 @@ func (w *World) ExtraKey(p *Party, usage uint32, data []byte) (M, []byte) {
 	var key []byte
 	var err error
 	cr := w.call(p, func() { key, out, err = p.Conv.UseExtraSymmetricKey(usage, data) })
-	return w.record(M{"ev": "ExtraKey"}, p, cr, w.emit(p, out), err), key
+	w.expectUsage = &usageRec{usage, append([]byte{}, data...)}
+	nw := len(w.Wire)
+	outs := w.emit(p, out)
+	// the key returned to the caller must be the extra key of the pair the message went out under
+	xk := true
+	if err == nil && len(w.Wire) > nw {
+		if k := w.Wire[len(w.Wire)-1].Keys; k == nil || !bytes.Equal(k.Extra, key) {
+			xk = false
+		}
+	}
+	return w.record(M{"ev": "ExtraKey", "xk": xk}, p, cr, outs, err), key
 }
 
 func (w *World) SetFragSize(p *Party, z int) {
